@@ -446,10 +446,7 @@ def make_context(plugins, storage=None, config=None, **opts):
         storage=storage if storage is not None else [MemFrontend()],
         register=list(plugins),
         config=config or {},
-        allow_multiprocess=False,
-        allow_shm=False,
-        use_per_run_defaults=False,
-        **opts,
+        **dict(dict(allow_multiprocess=False, allow_shm=False, use_per_run_defaults=False), **opts),
     )
     return st
 
